@@ -127,12 +127,13 @@ def unpackEntries (fs : FS) (srcDir : Path) (prefix_ : Nat) : List Entry → Nat
 def markerPath (srcDir : Path) (prefix_ : Nat) : Path := srcDir ++ [prefix_, 0]
 
 /-- `OpenOptions::new().create(true).truncate(true).write(true).open(p)`: an existing symlink at
-`p` is followed (the link's target is created or truncated) -/
+`p` is followed (the link's target is created or truncated); a directory at `p` makes the open fail -/
 def writeThrough (fs : FS) : Nat → Path → Nat → FS
   | 0, _, _ => fs
   | fuel + 1, p, content =>
     match lookup fs p with
     | some (.symlink t) => writeThrough fs fuel t content
+    | some .dir => fs          -- EISDIR: a directory cannot be opened for writing; nothing is written
     | _ => set fs p (.file content)
 
 /-- `unpack_package`, cut short after `crashAfter` entries (`none` = not interrupted) -/
